@@ -112,7 +112,20 @@ func concretise(cs c09Case, rng *rand.Rand, table int) concretePool {
 			core := e.Site + skipF + overhangDNA(f.F, cs.M) + body + overhangDNA(f.R, cs.M) + skipR + e.Rsite
 			part := randDNA(rng, 3+rng.Intn(15)) + core + randDNA(rng, 3+rng.Intn(15))
 			circ := rng.Intn(3) == 0
-			if countSites(part, e, circ) != 2 || countSites(part, builtinEnzymes["BsaI"], circ)+countSites(part, builtinEnzymes["BbsI"], circ)+countSites(part, builtinEnzymes["BtgZI"], circ) != 2 {
+			stale := 0
+			if !circ && rng.Intn(3) == 0 {
+				// a linear carrier (an amplicon) with stale, outward-facing sites at its ends: a backward site
+				// right at the start and / or a forward site right at the end cut nothing out
+				if rng.Intn(3) > 0 {
+					part = randDNA(rng, rng.Intn(8)) + e.Rsite + part
+					stale++
+				}
+				if rng.Intn(3) > 0 {
+					part = part + e.Site + randDNA(rng, rng.Intn(8))
+					stale++
+				}
+			}
+			if countSites(part, e, circ) != 2+stale || countSites(part, builtinEnzymes["BsaI"], circ)+countSites(part, builtinEnzymes["BbsI"], circ)+countSites(part, builtinEnzymes["BtgZI"], circ) != 2+stale {
 				continue
 			}
 			// NB: the orientation in which a fragment is supplied is part of the abstract pool (TLC enumerates
